@@ -365,29 +365,63 @@ class Scenario:
             return bb.cancel_job_group_in_db(app['db'], 1, g)
         return self.run_glue('cancel_job_group', make)
 
-    def op_update2_create(self, tag):
-        n2 = self.sizes.J - self.n1
-        if n2 <= 0:
-            raise HarnessError('scenario has no room for a second update')
-        self.begin('create_update')
-        outs = self.w.create_update('tokB', n2, self.sizes.G - 1 - self.g1)
-        self.outcomes.append(('create_update2', outs))
+    def later_jobs(self, k):
+        """number of jobs reserved by update k >= 2 (with three updates: one job in update 2, the rest in update 3)"""
+        room = self.sizes.J - self.n1
+        if self.sizes.U >= 3 and room >= 2:
+            return {2: 1, 3: room - 1}.get(k, 0)
+        return room if k == 2 else 0
+
+    def later_first(self, k):
+        return self.n1 + 1 + sum(self.later_jobs(x) for x in range(2, k))
+
+    def _update_create(self, k):
+        n = self.later_jobs(k)
+        if n <= 0:
+            raise HarnessError(f'scenario has no room for update {k}')
+        self.begin(f'create_update{k}')
+        ng = (self.sizes.G - 1 - self.g1) if k == 2 else 0
+        outs = self.w.create_update({2: 'tokB', 3: 'tokC'}[k], n, ng)
+        self.outcomes.append((f'create_update{k}', outs))
         return outs
 
-    def op_update2_jobs(self, tag):
-        n2 = self.sizes.J - self.n1
+    def _update_jobs(self, k):
+        n = self.later_jobs(k)
         fe, _ = bo.front_end()
 
         def make(app):
-            specs, res = self.job_specs(1, n2, self.n1 + 1, 'u2', list(range(0, self.sizes.G)), 2)
+            specs, res = self.job_specs(1, n, self.later_first(k), f'u{k}', list(range(0, self.sizes.G)), k)
             self.w.job_resources = res
-            return fe._create_jobs(dict(self.w.userdata), specs, 1, 2, app)
-        return self.run_glue('create_jobs2', make)
+            return fe._create_jobs(dict(self.w.userdata), specs, 1, k, app)
+        return self.run_glue(f'create_jobs{k}', make)
 
-    def op_update2_groups(self, tag):
+    def _update_commit(self, k):
+        self.begin(f'commit{k}')
+        outs = self.w.commit_update(k)
+        self.outcomes.append((f'commit{k}', outs))
+        return outs
+
+    def op_update2_create(self, tag):
+        return self._update_create(2)
+
+    def op_update2_jobs(self, tag):
+        return self._update_jobs(2)
+
+    def op_update3_create(self, tag):
+        return self._update_create(3)
+
+    def op_update3_jobs(self, tag):
+        return self._update_jobs(3)
+
+    def op_update3_commit(self, tag):
+        return self._update_commit(3)
+
+    def _update2_groups(self, rels, label):
+        """submit the job groups with in-update ids `rels` (1-based) of update 2 as one bunch; each parent is a symbolic
+        choice between an absolute earlier group and (for rel > 1) the in-update reference to an earlier new group"""
         ng = self.sizes.G - 1 - self.g1
-        if ng <= 0:
-            raise HarnessError('scenario has no room for job groups in the second update')
+        if ng < max(rels):
+            raise HarnessError('scenario has no room for these job groups in the second update')
         fe, _ = bo.front_end()
         import inspect
         h = inspect.unwrap(fe.create_job_groups)
@@ -395,15 +429,29 @@ class Scenario:
 
         def make(app):
             specs = []
-            for r in range(ng):
-                g = self.g1 + 1 + r
-                specs.append(bo.group_spec(r + 1, None))
-                specs[-1].pop('absolute_parent_id')
-                specs[-1]['absolute_parent_id'] = inp.choose(f'u2_parent_g{g}', list(range(0, g)))
+            for rel in rels:
+                g = self.g1 + rel
+                sp = {'job_group_id': rel}
+                kinds = ['absolute'] + (['in_update'] if rel > 1 else [])
+                kind = inp.choose(f'u2_parent_kind_g{g}', kinds) if len(kinds) > 1 else 'absolute'
+                if kind == 'absolute':
+                    sp['absolute_parent_id'] = inp.choose(f'u2_parent_g{g}', list(range(0, self.g1 + 1)))
+                else:
+                    sp['in_update_parent_id'] = inp.choose(f'u2_inparent_g{g}', list(range(1, rel)))
+                specs.append(sp)
             req = w.request({'batch_id': '1', 'update_id': '2'}, specs)
             req.app = app
             return h(req, dict(w.userdata))
-        return self.run_glue('create_job_groups2', make)
+        return self.run_glue(label, make)
+
+    def op_update2_groups(self, tag):
+        return self._update2_groups(list(range(1, self.sizes.G - self.g1)), 'create_job_groups2')
+
+    def op_update2_group1(self, tag):
+        return self._update2_groups([1], 'create_job_groups2a')
+
+    def op_update2_group2(self, tag):
+        return self._update2_groups([2], 'create_job_groups2b')
 
     def op_dup_create_batch(self, tag):
         self.begin('create_batch_again')
@@ -428,15 +476,13 @@ class Scenario:
         return outs
 
     def op_update2_commit(self, tag):
-        self.begin('commit2')
-        outs = self.w.commit_update(2)
-        self.outcomes.append(('commit2', outs))
-        return outs
+        return self._update_commit(2)
 
     OPS = {
         'schedule': op_schedule, 'creating': op_creating, 'started': op_started, 'complete': op_complete,
         'unschedule': op_unschedule, 'deactivate': op_deactivate, 'activate': op_activate, 'cancel_group': op_cancel_group,
-        'u2_create': op_update2_create, 'u2_jobs': op_update2_jobs, 'u2_commit': op_update2_commit, 'u2_groups': op_update2_groups, 'dup_create_batch': op_dup_create_batch,
+        'u2_create': op_update2_create, 'u2_jobs': op_update2_jobs, 'u2_commit': op_update2_commit, 'u2_groups': op_update2_groups, 'u2_group1': op_update2_group1, 'u2_group2': op_update2_group2, 'u3_create': op_update3_create, 'u3_jobs': op_update3_jobs,
+        'u3_commit': op_update3_commit, 'dup_create_batch': op_dup_create_batch,
         'dup_jobs1': op_dup_jobs1, 'commit1': op_commit1, 'cancel_ready': op_cancel_ready,
     }
 
@@ -447,7 +493,7 @@ class Scenario:
         self.last_args = {}
         key = {'dup_create_batch': 'create_batch', 'dup_jobs1': 'jobs1'}.get(kind, kind)
         self.is_repeat = key in self.sent and kind in ('dup_create_batch', 'dup_jobs1', 'u2_create', 'u2_jobs', 'u2_commit',
-                                                       'commit1', 'u2_groups')
+                                                       'commit1', 'u2_groups', 'u2_group1', 'u2_group2', 'u3_create', 'u3_jobs', 'u3_commit')
         self.sent = self.sent | {key}
         self.last_result = self.OPS[kind](self, f's{idx}_{kind}')
         return self.last_result
@@ -468,7 +514,9 @@ def solve_violation(sc, timeout_ms=120000, relaxed=False):
     for c in db.env_constraints:
         if is_sym(c):
             s.add(c)
-    if is_sym(db.oob):
+    if getattr(sc, 'oob_is_violation', False):
+        pass
+    elif is_sym(db.oob):
         s.add(z3.Not(db.oob))
     elif db.oob is True:
         raise HarnessError('scenario writes outside the modelled key space unconditionally')
@@ -508,7 +556,7 @@ def reachable(sc, timeout_ms=60000):
     for c in sc.db.env_constraints:
         if is_sym(c):
             s.add(c)
-    if is_sym(sc.db.oob):
+    if is_sym(sc.db.oob) and not getattr(sc, 'oob_is_violation', False):
         s.add(z3.Not(sc.db.oob))
     return str(s.check())
 
